@@ -7756,7 +7756,7 @@ func (c *BytecodeCompiler) logicalAnd(node *ast.LogicalExpressionNode, valueIsIg
 	if !valueIsIgnored {
 		c.emit(node.Location().StartPos.Line, bytecode.POP)
 	}
-	c.compileNode(node.Right, valueIsIgnored)
+	c.mustCompileNode(node.Right, valueIsIgnored)
 
 	// if falsy
 	c.patchJump(jump, node.Location())
